@@ -267,6 +267,13 @@ static void run_campaigns(Ctx& ctx) {
     for (const char* camp : {"LOAD", "COPY", "SERA"}) { c.campaign = camp; c.data = in; memset(c.aux, 0, sizeof c.aux); all_schedules(ctx, c); if (ctx.stop()) return; }
     if ((idx & 0xff) == 0 && ctx.out_of_time()) return;
   }
+  // wide inputs (members around the head-width boundaries): many growth steps inside one decode / copy
+  { uint64_t wi = 0;
+    for (auto& in : gen::wide_items(false)) {
+      if (in.size() > (thorough ? 1300u : 600u)) continue;
+      if ((wi++ % (thorough ? 1 : 3)) != 0 || !ctx.mine(idx++)) continue;
+      for (const char* camp : {"LOAD", "COPY", "SERA"}) { c.campaign = camp; c.data = in; memset(c.aux, 0, sizeof c.aux); all_schedules(ctx, c); if (ctx.stop()) return; }
+    } }
   // API-made trees: all one-byte programs and seeded longer ones: COPY, SERA and the construction itself
   auto prog = [&](const gen::Bytes& p) {
     for (const char* camp : {"COPY", "SERA", "PROGF"}) { c.campaign = camp; c.data = p; memset(c.aux, 0, sizeof c.aux); c.aux[3] = 1; all_schedules(ctx, c); if (ctx.stop()) return; }
